@@ -13,6 +13,7 @@ package mailbox
 import (
 	"io"
 	"math"
+	"net"
 	"time"
 
 	"context"
@@ -190,6 +191,7 @@ func be32at1(b []byte) uint32 {
 //@ import "github.com/lightninglabs/lightning-node-connect/hashmailrpc"
 //@ import "time"
 //@ import "net"
+//@ import "google.golang.org/grpc/credentials"
 
 // ---- pairing phrase and rendezvous (C17) -------------------------------------------
 
@@ -312,8 +314,9 @@ func lemmaPhraseRoundTrip(idx [NumPassphraseWords]int) (in, out [NumPassphraseWo
 //@ func (s *ConnData) HandshakePattern() (p HandshakePattern)
 //@   props C11 C03
 //@   withinit
-//@   requires s != nil
+//@   requires s != nil && unheld(&s.mu)
 //@   modifies s.mu
+//@   ensures unheld(&s.mu)
 //@   ensures @C11 implies(s.remoteKey == nil, same(p, XXPattern)) && implies(s.remoteKey != nil, same(p, KKPattern))
 
 // ---- one live connection per session (C11) ---------------------------------------
@@ -624,6 +627,7 @@ func ncinv(c *NoiseGrpcConn) bool {
 //@   ensures @C15 implies(err == nil, n == len(b) && !pending(c.noise))
 //@   ensures @C15 0 <= n && n <= len(b)
 //@   ensures @C15 implies(err == nil && !old(pending(c.noise)), wirelen() == old(wirelen()) + encHeaderSize + len(b) + macSize)
+//@   ensures @C15 implies(old(pending(c.noise)), n == 0 && err != nil && wirelen() == old(wirelen()) && nseals() == old(nseals()) && pending(c.noise))
 
 // nkinv: a NoiseConn after the handshake.
 func nkinv(c *NoiseConn) bool {
@@ -643,12 +647,14 @@ func nkinv(c *NoiseConn) bool {
 
 //@ func (c *NoiseConn) Write(b []byte) (n int, err error)
 //@   props C15 C16 C08 C07
-//@   requires nkinv(c) && !pending(c.noise)
+//@   requires nkinv(c)
 //@   modifies wire(), cryptolog(), c.noise.nextHeaderSend, c.noise.nextBodySend, c.noise.sendCipher.nonce, c.noise.sendCipher.secretKey,
 //@            c.noise.sendCipher.salt, c.noise.sendCipher.cipher
 //@   loop 0 invariant nkinv(c) && bytesWritten >= 0 && bytesWritten <= len(b) && chunkSize >= 0 && chunkSize <= math.MaxUint16 &&
-//@          !pending(c.noise) && len(b) > math.MaxUint16
+//@          implies(!old(pending(c.noise)), !pending(c.noise)) && len(b) > math.MaxUint16
+//@   loop 0 invariant implies(old(pending(c.noise)), pending(c.noise) && bytesWritten == 0 && wirelen() == old(wirelen()) && nseals() == old(nseals()))
 //@   loop 0 invariant wirelen() >= old(wirelen()) && nseals() >= old(nseals())
+//@   ensures @C15,C16 implies(old(pending(c.noise)), n == 0 && err != nil && wirelen() == old(wirelen()) && nseals() == old(nseals()) && pending(c.noise))
 //@   at "return bytesWritten, err"#2 assert @C15,C16 bytesWritten + payloadLeft(len(c.noise.nextBodySend)) == offsetin(chunk, b) + len(chunk)
 //@   ensures nkinv(c)
 //@   ensures @C15 0 <= n && n <= len(b)
@@ -716,11 +722,13 @@ func implOK(impl controlConn) bool {
 //@ func ekeMask(e *btcec.PublicKey, passphraseEntropy []byte) (r *btcec.PublicKey)
 //@   props C03 C07
 //@   trusted
+//@   requires @C07 e != nil
 //@   ensures r != nil
 
 //@ func ekeUnmask(me *btcec.PublicKey, passphraseEntropy []byte) (r *btcec.PublicKey)
 //@   props C03 C07
 //@   trusted
+//@   requires @C07 me != nil
 //@   ensures r != nil
 
 // ---- symmetric state of the handshake (C03, C04) --------------------------------
@@ -838,10 +846,29 @@ func lemmaNoisePatterns() {}
 func verifNewMachineXX(cfg *BrontideMachineConfig) (m *Machine, err error) { return NewBrontideMachine(cfg) }
 func verifNewMachineKK(cfg *BrontideMachineConfig) (m *Machine, err error) { return NewBrontideMachine(cfg) }
 
+// Summary of NewBrontideMachine for its callers (trusted as a whole; proved case
+// by case by verifNewMachineXX / verifNewMachineKK, which unfold the function).
+//@ func NewBrontideMachine(cfg *BrontideMachineConfig) (m *Machine, err error)
+//@   props C03 C04 C07
+//@   trusted
+//@   noframe
+//@   requires cfg != nil && is[*ConnData](cfg.ConnData) && as[*ConnData](cfg.ConnData) != nil && !isnil(as[*ConnData](cfg.ConnData).localKey)
+//@   requires cfg.MinHandshakeVersion <= cfg.MaxHandshakeVersion && cfg.MaxHandshakeVersion <= MaxHandshakeVersion
+//@   requires same(cfg.HandshakePattern, XXPattern) || same(cfg.HandshakePattern, KKPattern)
+//@   modifies cfg.EphemeralGen, events("*")
+//@   ensures implies(err != nil, m == nil)
+//@   ensures implies(err == nil, fresh(m) && hsfresh(m) && m.cfg == cfg && m.initiator == cfg.Initiator && same(m.pattern, cfg.HandshakePattern))
+//@   ensures implies(err == nil, m.maxVersion == cfg.MaxHandshakeVersion && m.minVersion >= cfg.MinHandshakeVersion)
+//@   ensures implies(err == nil, implies(cfg.Initiator, m.version == m.minVersion) && implies(!cfg.Initiator, m.version == m.maxVersion))
+//@   ensures implies(err == nil && same(cfg.HandshakePattern, KKPattern), m.minVersion >= HandshakeVersion2 && m.remoteStatic != nil)
+//@   ensures implies(err == nil && same(cfg.HandshakePattern, XXPattern), m.minVersion == cfg.MinHandshakeVersion)
+
 //@ func verifNewMachineXX(cfg *BrontideMachineConfig) (m *Machine, err error)
 //@   props C03 C04 C07
 //@   withinit
 //@   noframe
+//@   unfolds NewBrontideMachine
+//@   ensures implies(err != nil, m == nil) && implies(err == nil, m.cfg == cfg)
 //@   requires cfg != nil && is[*ConnData](cfg.ConnData) && as[*ConnData](cfg.ConnData) != nil && !isnil(as[*ConnData](cfg.ConnData).localKey)
 //@   requires cfg.MinHandshakeVersion <= cfg.MaxHandshakeVersion && cfg.MaxHandshakeVersion <= MaxHandshakeVersion
 //@   requires same(cfg.HandshakePattern, XXPattern)
@@ -853,6 +880,8 @@ func verifNewMachineKK(cfg *BrontideMachineConfig) (m *Machine, err error) { ret
 //@   props C03 C04 C07
 //@   withinit
 //@   noframe
+//@   unfolds NewBrontideMachine
+//@   ensures implies(err != nil, m == nil) && implies(err == nil, m.cfg == cfg)
 //@   requires cfg != nil && is[*ConnData](cfg.ConnData) && as[*ConnData](cfg.ConnData) != nil && !isnil(as[*ConnData](cfg.ConnData).localKey)
 //@   requires cfg.MinHandshakeVersion <= cfg.MaxHandshakeVersion && cfg.MaxHandshakeVersion <= MaxHandshakeVersion
 //@   requires same(cfg.HandshakePattern, KKPattern)
@@ -872,9 +901,20 @@ func isscrypt(out, pw []byte) bool { return true }
 // The moment the traffic keys are derived: every AEAD open of the handshake has
 // authenticated (3 acts: XX, 2 acts: KK; the initiator of a version-0 XX
 // handshake opens one record less). old() is the state DoHandshake was entered in.
+// The requires/ensures below are the summary the callers (ClientHandshake /
+// ServerHandshake) use. It is `trusted` as a whole because the body can only
+// be executed with a concrete pattern table: every clause of it is proved,
+// case by case, by the four wrappers verifXXResponder/XXInitiator/KKResponder/
+// KKInitiator, which unfold this function (their preconditions partition this one).
 //@ func (b *Machine) DoHandshake(rw io.ReadWriter) (err error)
 //@   props C03 C04 C07 C16
-//@   pointsonly
+//@   trusted
+//@   noframe
+//@   requires hsfresh(b) && !isnil(rw) && (same(b.pattern, XXPattern) || same(b.pattern, KKPattern))
+//@   requires implies(b.initiator, b.version == b.minVersion) && implies(!b.initiator, b.version == b.maxVersion)
+//@   requires implies(same(b.pattern, KKPattern), b.remoteStatic != nil && b.minVersion >= HandshakeVersion2)
+//@   modifies wire(), cryptolog(), events("*"), b.sendCipher, b.recvCipher, b.handshakeState, hscd(b).remoteKey, hscd(b).authData, hscd(b).mu
+//@   ensures implies(err == nil, csinv(&b.sendCipher) && csinv(&b.recvCipher) && b.remoteStatic != nil && b.initiator == old(b.initiator))
 //@   at "b.split()" assert @C03 implies(len(b.pattern.Pattern) == 3 && !b.initiator, opens3(old(nopens()))) &&
 //@          implies(len(b.pattern.Pattern) == 3 && b.initiator && b.version == HandshakeVersion0, opens2(old(nopens()))) &&
 //@          implies(len(b.pattern.Pattern) == 3 && b.initiator && b.version != HandshakeVersion0, opens3(old(nopens()))) &&
@@ -915,6 +955,8 @@ func verifKKInitiator(b *Machine, rw io.ReadWriter) (err error) { return b.DoHan
 //@   props C03 C04 C07 C16
 //@   withinit
 //@   noframe
+//@   unfolds DoHandshake
+//@   ensures implies(err == nil, b.remoteStatic != nil && b.initiator == old(b.initiator))
 //@   requires hsfresh(b) && !isnil(rw) && !b.initiator && same(b.pattern, XXPattern) && b.version == b.maxVersion
 //@   ensures @C03 implies(wirelen() > old(wirelen()), nopens() >= old(nopens())+1 && openok(old(nopens())))
 //@   ensures @C03 implies(nopens() > old(nopens()), b.remoteEphemeral != nil)
@@ -930,6 +972,8 @@ func verifKKInitiator(b *Machine, rw io.ReadWriter) (err error) { return b.DoHan
 //@   props C03 C04 C07 C16
 //@   withinit
 //@   noframe
+//@   unfolds DoHandshake
+//@   ensures implies(err == nil, b.remoteStatic != nil && b.initiator == old(b.initiator))
 //@   requires hsfresh(b) && !isnil(rw) && b.initiator && same(b.pattern, XXPattern) && b.version == b.minVersion
 //@   ensures @C03 implies((hskeyed(b) || err == nil) && b.version == HandshakeVersion0, opens2(old(nopens())))
 //@   ensures @C03 implies((hskeyed(b) || err == nil) && b.version != HandshakeVersion0, opens3(old(nopens())))
@@ -944,6 +988,8 @@ func verifKKInitiator(b *Machine, rw io.ReadWriter) (err error) { return b.DoHan
 //@   props C03 C04 C07 C16
 //@   withinit
 //@   noframe
+//@   unfolds DoHandshake
+//@   ensures implies(err == nil, b.remoteStatic != nil && b.initiator == old(b.initiator))
 //@   requires hsfresh(b) && !isnil(rw) && !b.initiator && same(b.pattern, KKPattern) && b.version == b.maxVersion && b.remoteStatic != nil
 //@   ensures @C03 implies(wirelen() > old(wirelen()), nopens() >= old(nopens())+1 && openok(old(nopens())))
 //@   ensures @C03 implies(hskeyed(b) || err == nil, opens1(old(nopens())))
@@ -956,6 +1002,8 @@ func verifKKInitiator(b *Machine, rw io.ReadWriter) (err error) { return b.DoHan
 //@   props C03 C04 C07 C16
 //@   withinit
 //@   noframe
+//@   unfolds DoHandshake
+//@   ensures implies(err == nil, b.remoteStatic != nil && b.initiator == old(b.initiator))
 //@   requires hsfresh(b) && !isnil(rw) && b.initiator && same(b.pattern, KKPattern) && b.version == b.minVersion && b.remoteStatic != nil
 //@   requires b.minVersion >= HandshakeVersion2
 //@   ensures @C03 implies(hskeyed(b) || err == nil, opens2(old(nopens())))
@@ -1213,3 +1261,53 @@ func trFull(t ClientConnTransport) bool {
 //@   requires unheld(&c.sendStreamMu) && unheld(&c.statusMu)
 //@   noframe
 //@   loop 0 invariant (!isnil(c.sendStream) || closed(c.quit) || ctxdone(ctx)) && unheld(&c.sendStreamMu) && unheld(&c.statusMu)
+
+// ---- handshake entry points (C03, C04) ------------------------------------------------
+// NoiseGrpcConn.ClientHandshake / ServerHandshake choose the role, the pattern
+// (from the ConnData: XX before pairing, KK once a remote key is stored) and the
+// version bounds, run the handshake and hand the secured connection to gRPC only
+// if it succeeded. Verified over the summaries of NewBrontideMachine and
+// DoHandshake.
+//@ func (k *connKit) SetReadDeadline(t time.Time) (err error)
+//@   props C07
+//@   requires k != nil && implOK(k.impl)
+//@   noframe
+//@   ensures err == nil
+
+// pcOK: a connection handed in by gRPC that is one of the two mailbox
+// connections is a usable one.
+func pcOK(conn net.Conn) bool {
+	return !is[*NoiseGrpcConn](conn) && !is[*NoiseConn](conn) && implies(is[*ClientConn](conn), as[*ClientConn](conn) != nil && as[*ClientConn](conn).connKit != nil && implOK(as[*ClientConn](conn).connKit.impl)) &&
+		implies(is[*ServerConn](conn), as[*ServerConn](conn) != nil && as[*ServerConn](conn).connKit != nil && implOK(as[*ServerConn](conn).connKit.impl))
+}
+
+func ngcOK(c *NoiseGrpcConn) bool {
+	return c != nil && c.connData != nil && !isnil(c.connData.localKey) &&
+		c.minHandshakeVersion <= c.maxHandshakeVersion && c.maxHandshakeVersion <= MaxHandshakeVersion
+}
+
+//@ func (c *NoiseGrpcConn) ClientHandshake(_ context.Context, _ string, conn net.Conn) (out net.Conn, ai credentials.AuthInfo, err error)
+//@   props C03 C04
+//@   withinit
+//@   noframe
+//@   requires ngcOK(c) && pcOK(conn) && unheld(&c.proxyConnMtx) && unheld(&c.connData.mu)
+//@   at "c.noise.DoHandshake(c.ProxyConn)" assert @C04 c.noise != nil && c.noise.initiator && c.noise.maxVersion == c.maxHandshakeVersion &&
+//@          c.noise.minVersion >= c.minHandshakeVersion && c.noise.version == c.noise.minVersion && hscd(c.noise) == c.connData
+//@   at "c.noise.DoHandshake(c.ProxyConn)" assert @C03 implies(c.connData.remoteKey == nil, same(c.noise.pattern, XXPattern)) &&
+//@          implies(c.connData.remoteKey != nil, same(c.noise.pattern, KKPattern) && c.noise.minVersion >= HandshakeVersion2)
+//@   ensures @C03 implies(err != nil, isnil(out) && isnil(ai))
+//@   ensures @C03,C04 implies(err == nil, is[*NoiseGrpcConn](out) && as[*NoiseGrpcConn](out) == c && c.noise != nil && c.noise.initiator &&
+//@           csinv(&c.noise.sendCipher) && csinv(&c.noise.recvCipher))
+
+//@ func (c *NoiseGrpcConn) ServerHandshake(conn net.Conn) (out net.Conn, ai credentials.AuthInfo, err error)
+//@   props C03 C04
+//@   withinit
+//@   noframe
+//@   requires ngcOK(c) && pcOK(conn) && unheld(&c.proxyConnMtx) && unheld(&c.connData.mu)
+//@   at "c.noise.DoHandshake(c.ProxyConn)" assert @C04 c.noise != nil && !c.noise.initiator && c.noise.maxVersion == c.maxHandshakeVersion &&
+//@          c.noise.minVersion >= c.minHandshakeVersion && c.noise.version == c.noise.maxVersion && hscd(c.noise) == c.connData
+//@   at "c.noise.DoHandshake(c.ProxyConn)" assert @C03 implies(c.connData.remoteKey == nil, same(c.noise.pattern, XXPattern)) &&
+//@          implies(c.connData.remoteKey != nil, same(c.noise.pattern, KKPattern) && c.noise.minVersion >= HandshakeVersion2)
+//@   ensures @C03 implies(err != nil, isnil(out) && isnil(ai))
+//@   ensures @C03,C04 implies(err == nil, is[*NoiseGrpcConn](out) && as[*NoiseGrpcConn](out) == c && c.noise != nil && !c.noise.initiator &&
+//@           csinv(&c.noise.sendCipher) && csinv(&c.noise.recvCipher))
